@@ -26,6 +26,7 @@ import contextlib
 import importlib
 import io
 import json
+import re
 import sys
 import traceback
 from fractions import Fraction
@@ -296,7 +297,7 @@ def candidate_names(cls, base, obj):
 def observe(world, cls, base, kw, si, n, ints, with_defs):
     """-> dict(exc=None|class name, values={attr: python value}, kinds={attr: kind}, order=[...], events=[...])"""
     obj, shx, exc, events = world.build(cls, kw, si, n, ints, with_defs)
-    key = (base, kw, si, n, ints, with_defs)
+    key = (base, kw, SETS[si][0], n, ints, with_defs)
     if key not in world.base_cache:
         bobj, _, bexc, _ = world.build(base, kw, si, n, ints, with_defs)
         world.base_cache[key] = dict(getattr(bobj, '__dict__', {}))
@@ -323,6 +324,22 @@ def observe(world, cls, base, kw, si, n, ints, with_defs):
                 events=events)
 
 
+_CMP = re.compile(r'^p(\d+) (?:<|<=|>|>=|==) (-?\d+(?:\.\d*)?(?:e[+-]?\d+)?)$')
+_TRUTH = re.compile(r'^bool\(p(\d+)\)$')
+
+
+def thresholds_of(event):
+    """branch event of the tracer -> [(parameter index, constant it was compared with)]"""
+    kind, text, _ = event
+    m = _CMP.match(text) if kind == 'cmp' else _TRUTH.match(text) if kind == 'truth' else None
+    if not m:
+        return []
+    try:
+        return [(int(m.group(1)), float(m.group(2)) if kind == 'cmp' else 0.0)]
+    except ValueError:
+        return []
+
+
 def is_index_error(name):
     return name == 'IndexError'
 
@@ -342,6 +359,27 @@ def probe_class(world, cls, base):
     attr_kind, order, points = {}, [], []
     inconsistent, computed = {}, set()
     ev_notes = set()
+    thresholds = set()
+
+    def confirm(forms, o, prim, i, n, hd):
+        for a in set(forms) | set(o['values']):
+            if a in forms and a in o['values']:
+                good = confirms(forms[a], o['values'][a], i, n, ints)
+            else:
+                good = a in forms and forms[a][0] in ('derived', 'structured')
+            if not good:
+                # a number that is neither a parameter nor a constant under both vectors was COMPUTED from the
+                # parameters by code that lost the provenance (`CELL.cosal` when the tokens do not go through
+                # float()): left out of the table like any other derived value, not a contradiction
+                fa = forms.get(a, ['unset'])
+                fb = classify(o['values'][a], i, n, ints, hd) if a in o['values'] else ['unset']
+                if all(f[0] == 'const' and plain_number(f[1]) for f in (fa, fb)):
+                    computed.add(a)
+                    continue
+                inconsistent.setdefault(a, f'n={n}{" after DEFS" if hd else ""}: `{SETS[prim][0]}` values give '
+                                           f'{forms.get(a, ["unset"])}, `{SETS[i][0]}` values give '
+                                           f'{short(o["values"].get(a, "unset"))}')
+
     for hd in (False, True):
         row = []
         for n in range(NMAX + 1):
@@ -367,30 +405,38 @@ def probe_class(world, cls, base):
             for e in po['events']:
                 if e[0] in ('cmp', 'truth'):
                     ev_notes.add(e[1])
+            for o in obs:
+                for e in o['events']:
+                    if e[0] in ('cmp', 'truth'):
+                        for jt in thresholds_of(e):
+                            thresholds.add(jt)
             # confirmation on the other vectors that complete
             same_raise = kind == 'raise' and all(e == excs[0] for e in excs)
             if kind == 'ok' or same_raise:
                 for i in (done[1:] if kind == 'ok' else range(1, len(obs))):
-                    o = obs[i]
-                    for a in set(forms) | set(o['values']):
-                        if a in forms and a in o['values']:
-                            good = confirms(forms[a], o['values'][a], i, n, ints)
-                        else:
-                            good = a in forms and forms[a][0] in ('derived', 'structured')
-                        if not good:
-                            # a number that is neither a parameter nor a constant under both vectors was COMPUTED from the
-                            # parameters by code that lost the provenance (`CELL.cosal` when the tokens do not go through
-                            # float()): left out of the table like any other derived value, not a contradiction
-                            fa = forms.get(a, ['unset'])
-                            fb = classify(o['values'][a], i, n, ints, hd) if a in o['values'] else ['unset']
-                            if all(f[0] == 'const' and plain_number(f[1]) for f in (fa, fb)):
-                                computed.add(a)
-                                continue
-                            inconsistent.setdefault(a, f'n={n}{" after DEFS" if hd else ""}: `{SETS[prim][0]}` values give '
-                                                       f'{forms.get(a, ["unset"])}, `{SETS[i][0]}` values give '
-                                                       f'{short(o["values"].get(a, "unset"))}')
+                    confirm(forms, obs[i], prim, i, n, hd)
             row.append(dict(kind=kind, exc=exc, forms=forms))
         points.append(row)
+    # every constant a traced parameter was compared with (`if p[0] > 5:`, `if not self.d:`): the reading is also
+    # confirmed on vectors that put that parameter on the constant and on either side of it
+    for j, t in sorted(thresholds)[:12]:
+        for v in (t, t - max(abs(t), 1.0) * 1e-3, t + max(abs(t), 1.0) * 1e-3):
+            SETS.append((f'p{j}={v!r}', (lambda k, j=j, v=v: v if k == j else 900.5 - 37 * k),
+                         (lambda k, j=j, v=v: int(v) if k == j else 900 - 37 * k), SETS[0][3]))
+            i = len(SETS) - 1
+            try:
+                for hd in (False, True):
+                    for n in range(j + 1, NMAX + 1):
+                        pt = points[hd][n]
+                        if pt['kind'] != 'ok':
+                            continue
+                        o = observe(world, cls, base, kw, i, n, ints, hd)
+                        if o['exc'] is None:
+                            confirm(pt['forms'], o, 0, i, n, hd)
+                        elif is_index_error(o['exc']):
+                            unreadable = unreadable or f'n={n}: IndexError when parameter {j} is {v!r}'
+            finally:
+                SETS.pop()
     for a, why in inconsistent.items():
         notes.append(f'{a}: depends on the parameter VALUES ({why})')
     # which attribute receives the words
